@@ -618,8 +618,17 @@ func CheckC15(h *History, blk *BlockRecord) []Violation {
 		}
 		return false
 	}
+	// explicit burns: what owners sent to the zero address leaves it only through the burner module (nobody holds
+	// that key), which destroys it at the end of its epoch. That amount is taken out of the comparison for every
+	// denom – the owner destroyed these tokens, the protocol did not – and everything else must balance exactly.
+	burnt := TransfersFrom(blk, sdk.AccAddress(make([]byte, 20)).String())
+	for _, c := range burnt {
+		denoms[c.Denom] = true
+		h.Labels["burner-burnt/"+c.Denom]++
+	}
 	for _, d := range sortedKeys(denoms) {
 		before, after := h.Prev.Supply.AmountOf(d), s.Supply.AmountOf(d)
+		after = after.Add(burnt.AmountOf(d)) // supply as it would be without the explicit burn
 		if before.Equal(after) {
 			continue
 		}
@@ -639,6 +648,10 @@ func CheckC15(h *History, blk *BlockRecord) []Violation {
 			up, down := shareMovers(h, blk, id)
 			if (delta.IsPositive() && !up) || (delta.IsNegative() && !down) {
 				out = append(out, Violation{Sig: "C15/share-supply-moved", Detail: fmt.Sprintf("%s supply %s without a join/exit (height %d; %s)", d, delta, s.Height, blockSummary(blk))})
+			}
+			// "minted only against deposits": the pool's own book says how many shares its deposits have earned
+			if p := s.Pool(id); p != nil && after.GT(p.TotalShares.Amount) {
+				out = append(out, Violation{Sig: "C15/pool-shares-minted-beyond-deposits", Detail: fmt.Sprintf("%s: %s share tokens exist but the pool's deposits account for %s (height %d; %s)", d, after, p.TotalShares.Amount, s.Height, blockSummary(blk))})
 			}
 		case d == sstypes.GetShareDenom():
 			if (delta.IsPositive() && !has("stablestake.MsgBond")) || (delta.IsNegative() && !has("stablestake.MsgUnbond")) {
